@@ -11,4 +11,12 @@ def jobs(tier):
     out.append(dict(name='reductions', src='h_udqset.cpp', defs={}, entry='h_reductions', tus=TUS, fp='real', loopmax=2000, maxsteps=40000000, partial_sites=False))
     out.append(dict(name='elemental', src='h_udqset.cpp', defs={}, entry='h_elemental', tus=TUS, fp='real', loopmax=2000, maxsteps=40000000))
     out.append(dict(name='union', src='h_udqset.cpp', defs={}, entry='h_union', tus=TUS, fp='real', loopmax=2000, maxsteps=40000000))
+    PT = ['opm/input/eclipse/Schedule/UDQ/%s.cpp' % n for n in ('UDQASTNode', 'UDQContext', 'UDQEnums', 'UDQFunction', 'UDQFunctionTable', 'UDQParams', 'UDQParser', 'UDQSet', 'UDQState', 'UDQToken', 'UDT')] + [
+          'opm/input/eclipse/Schedule/SummaryState.cpp', 'opm/input/eclipse/Schedule/Well/WellMatcher.cpp', 'opm/input/eclipse/Schedule/Well/NameOrder.cpp', 'opm/input/eclipse/Parser/ParseContext.cpp',
+          'opm/input/eclipse/Parser/ErrorGuard.cpp', 'opm/common/OpmLog/KeywordLocation.cpp', 'opm/common/utility/String.cpp', 'opm/common/utility/TimeService.cpp', 'opm/common/utility/shmatch.cpp']
+    pairs = [(a, b) for a in range(9) for b in range(9)]
+    if tier == 'quick': pairs = [(a, b) for (a, b) in pairs if (a, b) in ((0, 2), (2, 0), (1, 1), (3, 3), (3, 2), (2, 4), (4, 2), (4, 3), (0, 4), (4, 0), (1, 3), (4, 4), (0, 5), (5, 0), (6, 2), (7, 2), (2, 7), (8, 0), (0, 8), (5, 7), (8, 6))]
+    for a, b in pairs:
+        out.append(dict(name='parse_%d_%d' % (a, b), src='h_udqparse.cpp', defs={'OPA': a, 'OPB': b}, entry='h_precedence', tus=PT, fp='real', loopmax=20000, maxsteps=40000000, timeout=600, opts=['--ctors'],
+                        bounds='a %s b %s c with and without parentheses, all positive real a, b, c' % (('+', '-', '*', '/', '^', '>', '<', 'UADD', 'UMUL')[a], ('+', '-', '*', '/', '^', '>', '<', 'UADD', 'UMUL')[b])))
     return out
